@@ -1006,6 +1006,14 @@ def stays_inside(root, defs, arg):
     return True
 
 
+def gen_const_e(rng):
+    _GEN['components'], _GEN['abs_prefixes'] = ['a', 'b', 'sub', '.', 'c'], 'none'
+    try:
+        return gen_const(rng, allow_abs=False) if rng.chance(0.5) else ''
+    finally:
+        _GEN['components'], _GEN['abs_prefixes'] = COMPONENTS, None
+
+
 def gen_ecase(rng, i, root):
     home, acthome, third = os.path.join(root, 'home'), os.path.join(root, 'acthome'), os.path.join(root, 'ABS')
     kind = rng.weighted([('create', 50), ('read', 20), ('both', 30)])
@@ -1028,7 +1036,9 @@ def gen_ecase(rng, i, root):
             break
     finally:
         _GEN['components'], _GEN['abs_prefixes'] = COMPONENTS, None
-    cd = rng.chance(0.45)
+    cd = rng.weighted([(None, 45), ('act-sub', 20), ('tmp', 8), ('tmp-sub', 10), ('symbol', 17)])
+    cd_early = rng.chance(0.5)  # the cd stands in [setup]; the instruction may stand in a later phase (the directory persists)
+    home_file = None
     marker = 'MARK%d' % i
     src_label, dst_first = None, False
     if kind == 'both':
@@ -1042,9 +1052,20 @@ def gen_ecase(rng, i, root):
             'src': render_arg(src), 'dst': render_arg(arg)}
     elif kind == 'create':
         instr = rng.choice(['file', 'dir', 'copy'])
-        arg = with_final(arg, marker)
+        if cd and rng.chance(0.4):
+            # the forms WITHOUT a relativity option: relative to the directory current when the instruction runs
+            c = gen_const_e(rng)
+            arg = (('none',), ('plain', [('c', c)]) if c else None)
         label = instr + ':destination'
-        line = {'file': "file %s = 'M'", 'dir': 'dir %s', 'copy': 'copy -rel-home src.txt %s'}[instr] % render_arg(arg)
+        if instr == 'copy' and rng.chance(0.35):
+            # `copy SOURCE` without DESTINATION: "SOURCE is copied to the current directory" = destination <basename of SOURCE>
+            # with the default relativity; the source is a uniquely named file in the home directory
+            home_file = marker
+            arg = (('none',), ('plain', [('c', marker)]))
+            line = 'copy -rel-home %s' % marker
+        else:
+            arg = with_final(arg, marker)
+            line = {'file': "file %s = 'M'", 'dir': 'dir %s', 'copy': 'copy -rel-home src.txt %s'}[instr] % render_arg(arg)
     else:
         instr = rng.choice(['contents-of', 'copy-source'])
         arg = with_final(arg, 'exit-code' if (after and rng.chance(0.15)) else 'src.txt')
@@ -1058,16 +1079,30 @@ def gen_ecase(rng, i, root):
         lines += ['[%s]' % ph]
     else:
         lines = lines[:-2] + [] if False else lines  # (the act phase must come after setup: keep order below)
-    body = []
-    if cd:
-        body += ['dir w', 'cd w', "file src.txt = 'CWD'"]
-    body += [line]
-    if ph == 'setup':
+    cd_lines, cwd_rel = [], ['act']
+    if cd == 'act-sub':
+        cd_lines, cwd_rel = ['dir w', 'cd w', "file src.txt = 'CWD'"], ['act', 'w']
+    elif cd == 'tmp':
+        cd_lines, cwd_rel = ['cd -rel-tmp .'], ['tmp']
+    elif cd == 'tmp-sub':
+        cd_lines, cwd_rel = ['dir -rel-tmp t', 'cd -rel-tmp t', "file src.txt = 'CWD'"], ['tmp', 't']
+    elif cd == 'symbol':
+        r = rng.choice(['RAct', 'RTmp'])
+        defs = defs + [('P99', 'path', (('opt', r), ('plain', [('c', 'w')])))]
         k = lines.index('[act]')
-        lines = lines[:k] + body + lines[k:]
+        lines = lines[:k] + ['def ' + render_def(defs[-1])] + lines[k:]
+        cd_lines = ['dir @[P99]@', rng.choice(['cd @[P99]@', 'cd -rel P99 .']), "file src.txt = 'CWD'"]
+        cwd_rel = ['act' if r == 'RAct' else 'tmp', 'w']
+    body = [line]
+    if cd_early or ph == 'setup':
+        k = lines.index('[act]')
+        lines = lines[:k] + cd_lines + (body if ph == 'setup' else []) + lines[k:]
+        if ph != 'setup':
+            lines += body
     else:
-        lines += body
+        lines += cd_lines + body
     return {'kind': kind, 'phase': ph, 'after': after, 'defs': defs, 'arg': arg, 'label': label, 'cd': cd, 'marker': marker,
+            'cwd_rel': cwd_rel, 'home_file': home_file,
             'src': src, 'src_label': src_label, 'dst_first': dst_first,
             'text': '\n'.join(lines) + '\n', 'instruction': line}
 
@@ -1090,6 +1125,9 @@ def run_ecases(ctx, res, im, scratch):
             with open(os.path.join(d, 'src.txt'), 'w') as f:
                 f.write(c)
         ec = E_CORPUS[i](root) if i < len(E_CORPUS) else gen_ecase(rng, i, root)
+        if ec.get('home_file'):
+            with open(os.path.join(home, ec['home_file']), 'w') as f:
+                f.write('HOME')
         # second safety net: resolve in process first (no side effects); run the case only if the path stays in known places
         _, pre = im.observe(ec['defs'], conf_by_label[ec['label']][2], ec['arg'])
         if pre[0] == 'AResolved':
@@ -1123,17 +1161,17 @@ def run_ecases(ctx, res, im, scratch):
         found = []
         for dp, dn, fn in os.walk(scratch):  # the case's directory, the sandboxes, and wherever a ".." may have led
             found += [os.path.join(dp, x) for x in dn + fn if x == ec['marker']]
-        found.sort()
+        found = sorted(x for x in found if not (ec.get('home_file') and x == os.path.join(home, ec['home_file'])))
         read = None
         if ec['kind'] in ('read', 'both') and found:
             content = open(found[0]).read() if os.path.isfile(found[0]) else None
             read = TAGS.get(content, 99)
         sds_m = sds or '/NO-SANDBOX'
-        cwd = os.path.join(sds_m, 'act', 'w') if ec['cd'] else os.path.join(sds_m, 'act')
+        cwd = os.path.join(sds_m, *(ec.get('cwd_rel') or (['act', 'w'] if ec['cd'] else ['act'])))
         files = [(os.path.join(home, 'src.txt'), 1), (os.path.join(acthome, 'src.txt'), 2), (os.path.join(sds_m, 'act', 'src.txt'), 3),
                  (os.path.join(sds_m, 'tmp', 'src.txt'), 4)]
-        if ec['cd']:
-            files.append((os.path.join(sds_m, 'act', 'w', 'src.txt'), 5))
+        if ec['cd'] and ec['cd'] != 'tmp':
+            files.append((os.path.join(cwd, 'src.txt'), 5))
         if ec['after']:
             files.append((os.path.join(sds_m, 'result', 'exit-code'), 6))
         ec.update(verdict=verdict, created=found if ec['kind'] in ('create', 'both') else [], read=read, home_changed=before != after,
@@ -1142,6 +1180,9 @@ def run_ecases(ctx, res, im, scratch):
         cases.append(ec)
         res.count('ecase %s in %s' % (ec['label'], ec['phase']))
         res.count('ecase verdict ' + verdict)
+        res.count('ecase cd before the instruction: %s' % (ec['cd'] or 'none'))
+        if ec.get('home_file'):
+            res.count('ecase copy SOURCE without DESTINATION')
         if chain_depth(ec['defs'], ec['arg']) >= 1 or ec['arg'][0][0] in ('opt', 'sym'):
             res.nontrivial.add(('e', ec['text']))
         for x in os.listdir(sbx):  # the sandbox, and anything a ".." put next to it
